@@ -358,7 +358,14 @@ func (w *world) checkHistory(ctx string) {
 		names = append(names, k)
 	}
 	sort.Strings(names)
+	uid := verifsim.MetaString(w.sim.Get(compKey), "uid")
 	for _, other := range names {
+		// "controlled by its Composition" is what makes a revision eligible for XRs: the revision
+		// controller's documented contract is to re-add the owner reference to all revisions of the
+		// Composition, so after a successful reconcile none may be left uncontrolled in the store.
+		if verifsim.ControllerUID(revs[other]) != uid {
+			w.failf("%s: adopted: after a successful reconcile revision %s is not controlled by the Composition (owner references %v)", ctx, other, verifsim.OwnerRefs(revs[other]))
+		}
 		if other == name {
 			continue
 		}
@@ -613,6 +620,9 @@ func (w *world) xrFetch(i int, plan map[int]verifsim.Fault) string {
 		if err != nil && !hit {
 			w.failf("%s: manual: fetching the referenced revision %s fails without any fault: %v", ctx, oldRef, err)
 		}
+		if w.synced && oldRef != w.revOf[w.cur] {
+			return "xr-manual-pinned:behind-current"
+		}
 		return "xr-manual-pinned"
 	}
 
@@ -671,6 +681,9 @@ func (w *world) xrFetch(i int, plan map[int]verifsim.Fault) string {
 		}
 		if newRef != oldRef {
 			w.failf("%s: automatic: fetch failed but XR %s now references %q (was %q)", ctx, s.name, newRef, oldRef)
+		}
+		if w.synced && len(accept) == 1 && subset(accept[0], labelVariant(w.pool[w.cur].Labels)) {
+			w.failf("%s: automatic: the revision controller has succeeded for the current content %d (labels %v, revision %s) but XR %s (policy %q, selector %v) finds no revision: %v", ctx, w.cur, labelVariant(w.pool[w.cur].Labels), w.revOf[w.cur], s.name, pol, sel, err)
 		}
 		class += ":none-qualifies"
 	default:
@@ -831,7 +844,12 @@ func TestVerifC12Histories(t *testing.T) {
 		sweeps := 0
 		t.Repeat(map[string]func(*rapid.T){
 			"edit": func(t *rapid.T) {
-				rec.Label("edit:" + w.edit(rapid.IntRange(0, len(pool)-1).Draw(t, "content")))
+				// Mostly a real change; now and then a write that changes nothing.
+				i := (w.cur + rapid.IntRange(1, len(pool)-1).Draw(t, "content")) % len(pool)
+				if rapid.IntRange(0, 9).Draw(t, "noop") == 0 {
+					i = w.cur
+				}
+				rec.Label("edit:" + w.edit(i))
 			},
 			"reconcile": func(t *rapid.T) {
 				plan := genPlan(t, 9)
@@ -857,7 +875,11 @@ func TestVerifC12Histories(t *testing.T) {
 				rec.AddExtra("sweep_fault_runs", n)
 				rec.Labelf("sweep:edit-between=%v", then >= 0)
 			},
-			"backup-restore": func(*rapid.T) {
+			"backup-restore": func(t *rapid.T) {
+				// Backups are restored far less often than Compositions are edited.
+				if len(w.revs()) == 0 || rapid.IntRange(0, 2).Draw(t, "restore") != 0 {
+					t.Skip("no backup/restore now")
+				}
 				w.strip()
 				rec.Label("backup-restore")
 			},
@@ -872,7 +894,16 @@ func TestVerifC12Histories(t *testing.T) {
 				if rapid.IntRange(0, 3).Draw(t, "faulty") == 0 {
 					plan[rapid.IntRange(0, 3).Draw(t, "call")] = rapid.SampledFrom(faultKinds).Draw(t, "fault")
 				}
-				rec.Label(w.xrFetch(rapid.IntRange(0, len(w.xrs)-1).Draw(t, "xr"), plan))
+				var made []int
+				for i, s := range w.xrs {
+					if s.made {
+						made = append(made, i)
+					}
+				}
+				if len(made) == 0 {
+					t.Skip("no XR yet")
+				}
+				rec.Label(w.xrFetch(rapid.SampledFrom(made).Draw(t, "xr"), plan))
 			},
 			"": func(*rapid.T) { w.checkHistory("invariant") },
 		})
